@@ -151,16 +151,19 @@ class InUnits(Contract):
     func = "UnitConversions.in_units"
     solver_timeout_ms = 30000
 
-    def __init__(self, form, i):
+    def __init__(self, form, i, single_value=False):
+        # single_value: a single number that carries the each-month label (the constructor accepts it; the form
+        # is a matter of the LABEL, the shape a matter of the VALUE, and each must be preserved on its own)
         self.form, self.i = form, i
-        self.name = f"{'total' if not form else form.strip()}#{i}"
+        self.series = form == " each month" and not single_value
+        self.name = f"{'total' if not form else form.strip()}#{i}" + ("_label_on_a_single_value" if single_value else "")
 
     def inputs(self, S):
         s = settings(S)
         i, form = self.i, self.form
         ku, fu = KBASE[i % 5] + form, FBASE[i % 6] + form
         pu = FBASE[(i + 2) % 6] + form
-        if form == " each month":
+        if self.series:
             N = S.int("N")
             S.assume(N >= 1)
             k, f, p = S.series("k", N), S.series("f", N), S.series("p", N)
@@ -177,7 +180,7 @@ class InUnits(Contract):
         ku, fu, pu = a["units"]
         strip = lambda u: u.replace(" each month", "").replace(" per month", "")
         ok_vals, ok_labels, ok_shape, ok_frame = [], [], [], []
-        idx = S.idx("i", a["N"]) if form == " each month" else None
+        idx = S.idx("i", a["N"]) if self.series else None
         from pyvc.values import Arr as _Arr
         at = (lambda x: x[idx]) if idx is not None else (lambda x: x)
         for j, r in enumerate(unwrap(res)):
@@ -307,7 +310,8 @@ def lemmas(repo, tier, seed):
 
 CONTRACTS = ([Multipliers(n) for n in ("kcals", "fat", "protein")] + [Conversion(i) for i in range(18)]
              + [UnknownUnit(0, "kcals"), UnknownUnit(1, "tons"), UnknownUnit(2, "thousand tons each year")]
-             + [InUnits(form, i) for form in FORMS for i in range(6)] + [Anchors(), Resettings()])
+             + [InUnits(form, i) for form in FORMS for i in range(6)]
+             + [InUnits(" each month", i, single_value=True) for i in (0, 3)] + [Anchors(), Resettings()])
 EXTRA = [lemmas]
 TRUSTED = [
     "machine floats treated as mathematical reals: each identity holds exactly in R, to a few ulp in doubles",
